@@ -78,6 +78,13 @@ pub(crate) fn policy_push(keys: &[u64], kept: bool, queue_len: usize, closed: bo
     });
 }
 
+pub(crate) fn policy_cost_update(key: u64, prev: i64, cost: i64) {
+    if !obs::enabled() {
+        return;
+    }
+    obs::emit(Obs::CostUpdate { key, prev, cost });
+}
+
 pub(crate) fn policy_applied(keys: &[u64]) {
     if !obs::enabled() {
         return;
